@@ -29,6 +29,7 @@ def step (s : DState) (line : String) : DState × String :=
   | some ("kparse", _) => (s, kparse toks)
   | some ("kvstr", _) => (s, kvstr toks)
   | some ("ktv", _) => (s, ktv toks)
+  | some ("kmsz", _) => (s, kmsz toks)
   | some ("kchunk", _) => (s, kchunk toks)
   | some ("kneg", _) => (s, kneg toks)
   | some ("klfs", _) => (s, klfs toks)
